@@ -25,7 +25,7 @@ LEVEL_TEXT = ("Scenarios restricted to the v1 vocabulary (discrete/continuous re
               "be identical. Runs with the grid section omitted / optional sections omitted must equal the explicit ones.")
 LEVEL_NOTE = "The TOML text is produced by the harness's own writer and read by ladim through tomli; with diffusion > 0 the tracker's rng is re-seeded identically by the harness in every run so that outputs are comparable exactly."
 RULE = ("case = scenario spec; renderings yaml2, toml2, yaml1 (+ grid-omitted, sections-omitted variants). Non-trivial: several release times or continuous release and moving water; distinct by spec.")
-MANDATORY = ["yaml2_vs_toml2", "yaml2_vs_yaml1", "grid_omitted_pairs", "wildcard_forcing", "optional_sections_omitted_pairs", "continuous", "discrete", "subgrid", "diffusion_seeded",
+MANDATORY = ["configure_dicts_compared", "plugin_gridforce", "version_key_omitted", "yaml2_vs_toml2", "yaml2_vs_yaml1", "grid_omitted_pairs", "wildcard_forcing", "optional_sections_omitted_pairs", "continuous", "discrete", "subgrid", "diffusion_seeded",
              "particle_variable_column", "values_compared"]
 ASSUMPTIONS = ["only what the v1 vocabulary can express"]
 TIMEOUT = {"quick": 900, "thorough": 3400}
@@ -81,7 +81,8 @@ def spec_for(case: dict[str, Any]) -> dict[str, Any]:
     return dict(dt=dt, ns=ns, cont=cont, freq=int(rng.integers(1, 3)), subgrid=[2, 17, 1, 13] if case["idx"] % 3 == 0 else None,
                 diffusion=float(rng.choice([0.0, 0.0, 25.0])), advection=str(rng.choice(["EF", "RK2", "RK4"])),
                 nfiles=nfiles, wildcard=bool(nfiles > 1 or rng.random() < 0.5), reference="2019-12-31T00:00:00" if rng.random() < 0.5 else None,
-                cohort=bool(rng.random() < 0.6), ibm=bool(rng.random() < 0.5), outper_spelling=int(rng.integers(2)), seed=int(rng.integers(10**6)))
+                cohort=bool(rng.random() < 0.6), ibm=bool(rng.random() < 0.5), outper_spelling=int(rng.integers(2)), seed=int(rng.integers(10**6)),
+                version_key=bool(rng.random() < 0.5), plugin_gridforce=bool(case["idx"] % 4 == 1))
 
 
 def make_files(sp: dict[str, Any], wd: Path):
@@ -98,6 +99,15 @@ def make_files(sp: dict[str, Any], wd: Path):
     w = W.write_world(wd / "world", dict(imax=20, jmax=15, N=3, t0=C.T0, frames=[f * dt for f in fr], files=counts,
                                           vel=dict(kind="gyre", A=spd, kx=0.4, ky=0.45, ratio=0.8, frame_amp=[1.0 + 0.1 * k for k in range(nfr)]),
                                           metric=dict(kind="uniform", dx=1000.0, dy=1000.0), h=dict(kind="flat", h=80.0)))
+    from netCDF4 import Dataset  # noqa: PLC0415
+
+    for fn in w["files"][1:]:
+        with Dataset(fn, "r+") as nc:
+            nc.variables["mask_rho"][:] = 0.0
+            nc.variables["h"][:] = 7.0
+    (wd / "gf_plugin.py").write_text(
+        "from ladim.ROMS import Forcing  # noqa: F401\nfrom ladim.ROMS import Grid as _Grid\n\n\nclass Grid(_Grid):\n"
+        "    def metric(self, X, Y):\n        dx, dy = super().metric(X, Y)\n        return 2.0 * dx, 2.0 * dy\n")
     rng = np.random.default_rng([sp["seed"], 5])
     names = ["release_time", "mult", "X", "Y", "Z"] + (["cohort"] if sp["cohort"] else [])
     rows = []
@@ -128,15 +138,16 @@ def renderings(sp: dict[str, Any], wd: Path, w, rls: Path, names: list[str]) -> 
     def out(name):
         return str(wd / f"out_{name}.nc")
 
+    gfmod = str(wd / "gf_plugin.py") if sp["plugin_gridforce"] else "ladim.ROMS"
     # ---- version 2 (natural spelling)
-    v2: dict[str, Any] = dict(version=2)
+    v2: dict[str, Any] = dict(version=2) if sp["version_key"] else {}
     v2["time"] = dict(start=start, stop=stop, dt=dt)
     if sp["reference"]:
         v2["time"]["reference"] = sp["reference"]
-    v2["grid"] = dict(module="ladim.ROMS", filename=str(w["files"][0]))
+    v2["grid"] = dict(module=gfmod, filename=str(w["files"][0]))
     if sp["subgrid"]:
         v2["grid"]["subgrid"] = sp["subgrid"]
-    v2["forcing"] = dict(module="ladim.ROMS", filename=forcing_file)
+    v2["forcing"] = dict(module=gfmod, filename=forcing_file)
     v2["state"] = dict(instance_variables=dict(age="float") if sp["ibm"] else {},
                        particle_variables=dict(release_time="time", **({"cohort": "float"} if sp["cohort"] else {})),
                        default_values=dict(age=0) if sp["ibm"] else {})
@@ -154,7 +165,7 @@ def renderings(sp: dict[str, Any], wd: Path, w, rls: Path, names: list[str]) -> 
     v1: dict[str, Any] = dict(
         time_control=dict(start_time=start, stop_time=stop),
         files=dict(particle_release_file=str(rls), output_file=out("yaml1")),
-        gridforce=dict(module="ladim1.gridforce.ROMS", input_file=forcing_file, gridfile=str(w["files"][0])),
+        gridforce=dict(module=gfmod if sp["plugin_gridforce"] else "ladim1.gridforce.ROMS", input_file=forcing_file, gridfile=str(w["files"][0])),
         numerics=dict(dt=dt, advection=sp["advection"], diffusion=sp["diffusion"]),
         particle_release=dict(variables=names, particle_variables=pvars, release_time="time"),
         output_variables=dict(outper=outper_v, format="NETCDF4", instance=ivars, particle=pvars),
@@ -171,7 +182,30 @@ def renderings(sp: dict[str, Any], wd: Path, w, rls: Path, names: list[str]) -> 
         v1["ibm"] = dict(ibm_module=C.REC_IBM, variables=["age"], age=True, log=False)
     for k in ivars + pvars:
         v1["output_variables"][k] = dict(ncformat=nct[k], **attrs[k])
+    if sp["version_key"]:
+        v1 = dict(version=1, **v1)
     return dict(yaml2=v2, yaml1=v1)
+
+
+def norm_conf(c: dict[str, Any]) -> dict[str, Any]:
+    """Semantic content of a configure() result (everything but the output file name)."""
+    from ladim.timekeeper import normalize_period  # noqa: PLC0415
+
+    one = np.timedelta64(1, "s")
+    rel = c["release"]
+    cont = bool(rel.get("continuous"))
+    out = c["output"]
+    return dict(
+        start=str(np.datetime64(c["time"]["start"], "s")), stop=str(np.datetime64(c["time"]["stop"], "s")), dt=int(normalize_period(c["time"]["dt"]) / one),
+        reference=str(np.datetime64(c["time"]["reference"], "s")) if c["time"].get("reference") else None,
+        grid_module=c["grid"].get("module") or "ladim.ROMS", grid_file=str(Path(str(c["grid"]["filename"])).resolve()), subgrid=list(c["grid"]["subgrid"]) if c["grid"].get("subgrid") else None,
+        forcing_module=c["forcing"].get("module") or "ladim.ROMS", forcing_file=str(c["forcing"]["filename"]), advection=c["tracker"].get("advection"),
+        diffusion=float(c["tracker"].get("diffusion") or 0.0), release_file=str(rel["release_file"]), names=list(rel.get("names") or []), continuous=cont,
+        release_frequency=int(normalize_period(rel["release_frequency"]) / one) if cont else None,
+        instance_variables=sorted((c["state"].get("instance_variables") or {}).items()), particle_variables=sorted((c["state"].get("particle_variables") or {}).items()),
+        ibm_module=(c.get("ibm") or {}).get("module"), output_period=int(normalize_period(out["output_period"]) / one),
+        out_instance=sorted((k, v["encoding"]["datatype"]) for k, v in out["instance_variables"].items()),
+        out_particle=sorted((k, v["encoding"]["datatype"]) for k, v in (out.get("particle_variables") or {}).items()))
 
 
 def read_all(path: Path):
@@ -225,13 +259,28 @@ def run_case(case: dict[str, Any], wd: Path) -> dict[str, Any]:
     def seeded_init(tok, res, self, *a, **k):
         self.rng = np.random.default_rng(sp["seed"])
 
+    confs: dict[str, Any] = {}
+
     def run(name: str, conf: dict[str, Any], fmt: str):
+        from ladim.configure import configure  # noqa: PLC0415
+
         path = wd / (f"{name}.toml" if fmt == "toml" else f"{name}.yaml")
         if fmt == "toml":
             path.write_text(to_toml(conf) + "\n")
         else:
             with open(path, "w", encoding="utf-8") as f:
                 yaml.safe_dump(conf, f, sort_keys=False)
+        try:
+            import os  # noqa: PLC0415
+
+            old = os.getcwd()
+            os.chdir(wd)
+            try:
+                confs[name] = norm_conf(configure(path))
+            finally:
+                os.chdir(old)
+        except BaseException as e:  # noqa: BLE001
+            confs[name] = f"configure failed: {type(e).__name__}: {e}"
         with Hooks() as hk:
             hk.wrap(Tracker, "__init__", None, seeded_init)
             res = run_ladim(path, cwd=wd)
@@ -270,6 +319,18 @@ def run_case(case: dict[str, Any], wd: Path) -> dict[str, Any]:
             V.append(C.viol(f"rendering '{name}' of the scenario did not run: {res.exc}", tb=res.tb[-1500:], **desc))
             continue
         outs[name] = read_all(Path(conf["output"]["filename"] if "output" in conf else conf["files"]["output_file"]))
+    # --- the configuration dictionaries returned by configure() carry the same simulation
+    ref_conf = confs.get("yaml2")
+    for other in ("toml2", "yaml1", "nogrid", "omit", "empty"):
+        if other in confs and isinstance(ref_conf, dict):
+            sit["configure_dicts_compared"] = sit.get("configure_dicts_compared", 0) + 1
+            if not isinstance(confs[other], dict):
+                continue  # reported through the failed run
+            diff = {k: (ref_conf[k], confs[other][k]) for k in ref_conf if ref_conf[k] != confs[other][k]}
+            if diff:
+                V.append(C.viol(f"configure() of the {other} spelling describes a different simulation than the YAML v2 spelling: {str(diff)[:500]}", **desc))
+    sit["plugin_gridforce"] = int(sp["plugin_gridforce"])
+    sit["version_key_omitted"] = int(not sp["version_key"])
     base = outs.get("yaml2")
     if base is not None:
         for other, sname in (("toml2", "yaml2_vs_toml2"), ("yaml1", "yaml2_vs_yaml1"), ("nogrid", "grid_omitted_pairs")):
